@@ -102,6 +102,21 @@ func runC11x(c c11Case, info *c11Info) *vstat.Failure {
 			return vstat.Failf("load-error", "%v", err)
 		}
 	}
+	// a metric of a program of its own, written through the API by the api-inc actors
+	apiMetric := metrics.NewMetric("api_total", "api_"+tag+".mtail", metrics.Counter, metrics.Int, "k")
+	if err := e.store.Add(apiMetric); err != nil {
+		return vstat.Failf("store-add-error", "%v", err)
+	}
+	var apiIncs atomic.Int64
+	apiMaxReps, apiActors := 0, 0
+	for _, a := range c.Actors {
+		if a.Kind == "api-inc" {
+			apiActors++
+			if a.Reps > apiMaxReps {
+				apiMaxReps = a.Reps
+			}
+		}
+	}
 	base0 := processed(name(0))
 	var seq atomic.Int64 // "time": lines handed over so far
 	var lineWindow [2]int64
@@ -233,6 +248,20 @@ func runC11x(c c11Case, info *c11Info) *vstat.Failure {
 					if err := e.store.Add(m); err != nil {
 						setFail(vstat.Failf("store-add-error", "%v", err))
 					}
+				case "api-inc":
+					// several goroutines count into the same dimensioned metric through
+					// the metric API, touching each label value for the first time at
+					// about the same moment: no increment may be lost, no label value
+					// may appear twice
+					for k := 0; k < 10; k++ {
+						d, err := apiMetric.GetDatum(fmt.Sprintf("r%d-k%d", r, k))
+						if err != nil {
+							setFail(vstat.Failf("api-error", "%v", err))
+							break
+						}
+						datum.IncIntBy(d, 1, time.Unix(1, 0))
+					}
+					apiIncs.Add(1)
 				case "marshal":
 					_, _ = e.store.MarshalJSON()
 				case "load-new":
@@ -271,6 +300,38 @@ func runC11x(c c11Case, info *c11Info) *vstat.Failure {
 	}
 	if !e.close() {
 		return vstat.Failf("runtime-does-not-stop", "runtime did not shut down within 20 s")
+	}
+	// the API writers: label value r<i>-k<j> was incremented once by every api-inc
+	// actor that reached repetition i
+	if apiActors > 0 {
+		want := map[string]int64{}
+		for _, a := range c.Actors {
+			if a.Kind != "api-inc" {
+				continue
+			}
+			for r := 0; r < a.Reps; r++ {
+				for k := 0; k < 10; k++ {
+					want[fmt.Sprintf("r%d-k%d", r, k)]++
+				}
+			}
+		}
+		seen := map[string]bool{}
+		apiMetric.RLock()
+		lvs := append([]*metrics.LabelValue(nil), apiMetric.LabelValues...)
+		apiMetric.RUnlock()
+		for _, lv := range lvs {
+			l := lv.Labels[0]
+			if seen[l] {
+				return vstat.Failf("label-value-twice", "label value %q of the API-written metric exists twice: two goroutines that touched it first at the same time each created it", l)
+			}
+			seen[l] = true
+			if got := datum.GetInt(lv.Value); got != want[l] {
+				return vstat.Failf("lost-update", "label value %q of the API-written metric counts %d, %d increments were made", l, got, want[l])
+			}
+		}
+		if len(seen) != len(want) {
+			return vstat.Failf("lost-update", "the API-written metric has %d label values, %d were created", len(seen), len(want))
+		}
 	}
 	// lost updates: the never-reloaded program counted every matching line
 	m := e.store.FindMetricOrNil("lines_total", name(0))
@@ -324,6 +385,13 @@ func TestC11(t *testing.T) {
 					StartUs: rapid.SampledFrom([]int{0, 0, 100, 1000}).Draw(rt, "start"),
 					YieldUs: rapid.SampledFrom([]int{0, 0, 50, 500}).Draw(rt, "yield"),
 				})
+			}
+			if rapid.IntRange(0, 1).Draw(rt, "apiwriters") == 0 {
+				n := rapid.IntRange(2, 4).Draw(rt, "napi")
+				reps := rapid.IntRange(20, 100).Draw(rt, "apireps")
+				for i := 0; i < n; i++ {
+					c.Actors = append(c.Actors, c11Actor{Kind: "api-inc", Reps: reps})
+				}
 			}
 			if rapid.IntRange(0, 2).Draw(rt, "unloader") == 0 {
 				// at most one actor unloads (UnloadProgram requires a loaded program)
